@@ -6,6 +6,7 @@ CONSTANTS
   Node <- TNode
   Delegates <- None
   NsStates <- None
+  IdStates <- None
 INIT TInit
 NEXT TNext
 INVARIANTS OnlyStrangersRemoved ProtectedUntouched WholeRepoOnlyWithoutSigrefs ErrorIsNoop
